@@ -23,5 +23,5 @@ SPECS = {
     "C18": props_path.C18,
 }
 # specs that can be run (./check) but are not claimed in MANIFEST.json yet
-IN_PROGRESS = {"C18"}
+IN_PROGRESS = set()
 NOT_CLAIMED = {}
